@@ -1301,15 +1301,6 @@ impl Part for UnionPart {
     }
 }
 
-/// Entry point of the libFuzzer target `pbt_c15` (fuzz/fuzz_targets/pbt_c15.rs includes this file as a module).
-#[allow(dead_code)]
-pub fn fuzz_one(data: &[u8]) -> Vec<Failure> {
-    thread_local! {
-        static S: (BoxedStrategy<<UnionPart as Part>::Case>, std::collections::HashSet<String>) = (UnionPart.strategy(Tier::Thorough), open_known_sigs_of("C15"));
-    }
-    S.with(|(st, known)| kvh::engine::fuzz_one(&UnionPart, st, data, known))
-}
-
 fn main() {
     let mut s = Session::start(
         "C15",
@@ -1331,7 +1322,5 @@ fn main() {
     s.assume("QuotedTripleStore::encode receives as components only plain-range numbers or quoted ids it issued itself (no caller can name a future quoted id)");
     s.run(&DictPart);
     s.run(&UnionPart);
-    // coverage-guided search over the same strategy and oracle (libFuzzer drives the random stream): thorough tier
-    s.fuzz_campaign(&UnionPart, "libfuzzer:union", "pbt_c15", 3_000, 8, 8192);
     std::process::exit(s.finish());
 }
